@@ -36,7 +36,7 @@ theorem C09_untouched (rnd : Rat → Rat) (o : Oracle) (k : Nat) (globalDry : Bo
       | terminate n hn hb b => rfl
       | delete n hn b => exact nameBacked (hc n hn).1 (hc n hn).2 rfl
     cases this with
-    | metrics id b => rfl
+    | metrics n hn b => rfl
     | force hf =>
       exact backed (fun n hn => by obtain ⟨_, hin, hu, _⟩ := forceCands_mem hn; exact ⟨hin, hu⟩) hf
     | reap hf =>
